@@ -508,8 +508,8 @@ def h_rank(a, tol=None, hermitian=False, **k):
     a = sarr(a)
     if a.ndim < 2:
         return lift(Or(*[lift(v) != 0 for v in a.flat]))
-    return kernel("matrix_rank", [a], [((), "r")], extra=(repr(tol),),
-                  concrete=lambda x: np.linalg.matrix_rank(x, tol=tol))[0]
+    return kernel("matrix_rank", [a], [((), "r")], extra=(repr(tol), bool(hermitian), tuple(sorted(k.items()))),
+                  concrete=lambda x: np.linalg.matrix_rank(x, tol=tol, hermitian=hermitian, **k))[0]
 
 
 @handles(np.linalg.norm)
